@@ -415,9 +415,10 @@ def rule_f(ctx):
                 t = strip_epoch(e.data['value'].term)
                 if t[0] == 'param' and t[2] == init.params()[1]:
                     first_attrs.add(e.data['target'][2])
+    allowed = _successor_functions(sc)
     for f, stmt, value in ctx.repo.attr_assignments(sc, cur):
-        if f.name == '__init__':
-            continue
+        if f.name == '__init__' or f not in allowed:
+            continue  # a store outside the successor step is C13.h's business
         paths = [p for p in ctx.paths(f, sc) if p.outcome == 'return']
         stores = []
         for p in paths:
@@ -634,4 +635,68 @@ def rule_error_conversion(ctx):
     conv(ctx, 'C12.l')
 
 
-RULES = [('C13.a', rule_a), ('C13.b', rule_b), ('C13.c', rule_c), ('C13.d', rule_d), ('C13.d+C13.e', rule_e), ('C13.f', rule_f), ('C13.g', rule_g), ('C12.l', rule_error_conversion)]
+
+def _successor_functions(sc):
+    """allocate_stream and the methods of the class that only allocate_stream (transitively) calls."""
+    alloc = sc.methods.get('allocate_stream')
+    if alloc is None:
+        raise AnalysisError('C13: allocate_stream vanished')
+    callers = {}
+    for g in sc.methods.values():
+        for n in walk_local(g.node):
+            if isinstance(n, ast.Attribute) and isinstance(n.value, ast.Name) and n.value.id == 'self' and \
+                    n.attr in sc.methods and isinstance(n.ctx, ast.Load):
+                callers.setdefault(sc.methods[n.attr], set()).add(g)
+    allowed = {alloc}
+    changed = True
+    while changed:
+        changed = False
+        for g, cs in callers.items():
+            if g not in allowed and cs and cs <= allowed and not g.name.startswith('__'):
+                allowed.add(g)
+                changed = True
+    return allowed
+
+
+def rule_h(ctx):
+    """C13.h  The allocation cursor moves only by the successor step: the attribute is stored by __init__ and by
+    allocate_stream (or a method only allocate_stream calls) and by nothing else in the library - not when a stream is
+    registered (the peer's ids go through the same method), not when one is finished (an id handed out and finished
+    must not be handed out again while the peer may still send on it, and fire-and-forget finishes ids it never
+    registered)."""
+    rep = ctx.report
+    sc = ctx.slots.StreamControl
+    cur = ctx.cache.get('id_cursor')
+    if cur is None:
+        raise AnalysisError('C13.h: cursor attribute unknown (C13.a did not run)')
+    allowed = _successor_functions(sc)
+    n = 0
+    bad = []
+    for f in ctx.repo.all_functions():
+        if not f.module.name.startswith('rsocket.'):
+            continue
+        for x in walk_local(f.node):
+            t = None
+            if isinstance(x, ast.Assign):
+                t = [y for y in x.targets]
+            elif isinstance(x, (ast.AugAssign, ast.AnnAssign)):
+                t = [x.target]
+            for y in t or []:
+                for z in ast.walk(y):
+                    if isinstance(z, ast.Attribute) and z.attr == cur and isinstance(z.ctx, ast.Store):
+                        n += 1
+                        if not (f.cls is not None and f.cls.is_subclass_of(sc) and
+                                (f.name == '__init__' or f in allowed)):
+                            bad.append((f, x))
+    for f, x in bad:
+        rep.bad('C13.h', '%s / moves the allocation cursor' % f.qualname.split(':')[-1], f,
+                '`%s` outside the successor step: ids are handed out in an order other than +2 from the last one '
+                'allocated, so an id can be issued twice or with the peer\'s parity' % ast.unparse(x))
+    rep.require('C13.h', 'stores to the allocation cursor', n, 2)
+    if not bad:
+        rep.ok('C13.h', 'allocation cursor / written by __init__ and the successor step only', sc.methods['allocate_stream'],
+               '%d stores, all in %s' % (n, sorted(g.name for g in allowed | {sc.methods['__init__']})))
+
+
+
+RULES = [('C13.a', rule_a), ('C13.b', rule_b), ('C13.c', rule_c), ('C13.d', rule_d), ('C13.d+C13.e', rule_e), ('C13.f', rule_f), ('C13.g', rule_g), ('C12.l', rule_error_conversion), ('C13.h', rule_h)]
